@@ -97,6 +97,7 @@ class Module:
         self.meta = {}
         self.path = None
         self.globals = {}  # name -> bytes of a c"..." initialiser (string constants only)
+        self.undefined = set()  # globals this unit only DECLARES (external / available_externally): some other unit must define them
 
     def loc_chain(self, dbg):
         """-> [(file, line)] from innermost to outermost (inlinedAt chain)."""
@@ -215,6 +216,9 @@ def parse_module(path, only=None):
                 mod.meta[m.group(1)] = m.group(2)
             continue
         if ln.startswith("@"):
+            um = re.match(r'^@("?[\w.$]+"?) = (?:external|available_externally) ', ln)
+            if um:
+                mod.undefined.add(um.group(1).strip('"'))
             gm = re.match(r'^@("?[\w.$]+"?) = .*? c"((?:[^"\\]|\\[0-9A-Fa-f]{2})*)"', ln)
             if gm:
                 raw = gm.group(2)
